@@ -588,6 +588,47 @@ func wireGrew2(oldLen int, b0, b1 uint8) bool {
 //@   trusted
 //@   ensures fresh(m) && tminv(m)
 
+// verifTimeoutOptions: every timeout option, applied to a manager under
+// construction, keeps what the constructor and the timeout updates rely on:
+// positive multiplier, update frequency and boost percentages, and - unless
+// the static mode is switched on - the resend timeout at or above the floor.
+// (The option closures are executed, not assumed: this is the part of the
+// trusted constructor contract that concerns the options of this package.)
+func toptinv(m *TimeoutManager) bool {
+	return m != nil && m.resendMultiplier > 0 && m.timeoutUpdateFrequency > 0 && m.resendBoostPercent > 0 && m.handshakeBoostPercent > 0 &&
+		(m.useStaticTimeout || m.resendTimeout >= minimumResendTimeout)
+}
+
+func verifTimeoutOptions(m *TimeoutManager, t1, t2, t3, t4 time.Duration, k1, k2 int, p float32) {
+	WithStaticResendTimeout(t1)(m)
+	WithResendMultiplier(k1)(m)
+	WithTimeoutUpdateFrequency(k2)(m)
+	WithHandshakeTimeout(t2)(m)
+	WithKeepalivePing(t3, t4)(m)
+	WithBoostPercent(p)(m)
+}
+
+func verifTimeoutOptionsDynamic(m *TimeoutManager, t2, t3, t4 time.Duration, k1, k2 int, p float32) {
+	WithResendMultiplier(k1)(m)
+	WithTimeoutUpdateFrequency(k2)(m)
+	WithHandshakeTimeout(t2)(m)
+	WithKeepalivePing(t3, t4)(m)
+	WithBoostPercent(p)(m)
+}
+
+//@ func verifTimeoutOptions(m *TimeoutManager, t1, t2, t3, t4 time.Duration, k1, k2 int, p float32)
+//@   props C20
+//@   noframe
+//@   requires toptinv(m)
+//@   ensures @C20 toptinv(m) && m.useStaticTimeout && m.resendTimeout == t1
+
+//@ func verifTimeoutOptionsDynamic(m *TimeoutManager, t2, t3, t4 time.Duration, k1, k2 int, p float32)
+//@   props C20
+//@   noframe
+//@   requires toptinv(m)
+//@   ensures @C20 toptinv(m) && m.useStaticTimeout == old(m.useStaticTimeout) && m.resendTimeout == old(m.resendTimeout)
+//@   ensures @C20 implies(k1 > 0, m.resendMultiplier == k1) && implies(k2 > 0, m.timeoutUpdateFrequency == k2) && implies(p > 0, m.resendBoostPercent == p && m.handshakeBoostPercent == p)
+
 // verifNewTimeOutManager: the constructor without options establishes the
 // invariant (what the option functions, opaque function values, do to it is the
 // trusted part of the contract above).
